@@ -15,8 +15,10 @@
 package dispatcher
 
 import (
+	"bufio"
 	"context"
 	"fmt"
+	"net"
 	"net/http"
 	"net/url"
 	"strings"
@@ -24,6 +26,7 @@ import (
 	"github.com/gobeam/stringy"
 	"k8s.io/apimachinery/pkg/api/errors"
 	"k8s.io/apimachinery/pkg/runtime/serializer"
+	"k8s.io/apimachinery/pkg/util/httpstream"
 	utilnet "k8s.io/apimachinery/pkg/util/net"
 	"k8s.io/apiserver/pkg/endpoints/filters"
 	genericapirequest "k8s.io/apiserver/pkg/endpoints/request"
@@ -153,7 +156,34 @@ func (d *dispatcher) ServeHTTP(w http.ResponseWriter, req *http.Request) {
 	responder := newErrorResponder(d.codecs, endpoint, requestInfo, extraInfo.ReaderWriter)
 
 	proxyHandler := NewUpgradeAwareHandler(location, endpoint.ProxyTransport, endpoint.PorxyUpgradeTransport, false, false, responder)
+	if httpstream.IsUpgradeRequest(newReq) {
+		// once the connection is hijacked the proxy no longer looks at the request context, so the
+		// cancellation above would not reach an exec / attach / port-forward session
+		w = closeOnDoneWriter{ResponseWriter: w, done: newReq.Context().Done()}
+	}
 	proxyHandler.ServeHTTP(w, newReq)
+}
+
+// closeOnDoneWriter closes a hijacked connection when done is closed (endpoint stopped,
+// client gone, or the handler returned).
+type closeOnDoneWriter struct {
+	http.ResponseWriter
+	done <-chan struct{}
+}
+
+func (w closeOnDoneWriter) Hijack() (net.Conn, *bufio.ReadWriter, error) {
+	hijacker, ok := w.ResponseWriter.(http.Hijacker)
+	if !ok {
+		return nil, nil, fmt.Errorf("response writer %T does not support hijacking", w.ResponseWriter)
+	}
+	conn, rw, err := hijacker.Hijack()
+	if err == nil {
+		go func() {
+			<-w.done
+			conn.Close()
+		}()
+	}
+	return conn, rw, err
 }
 
 func (d *dispatcher) responseError(err *errors.StatusError, w http.ResponseWriter, req *http.Request, reason string) {
